@@ -228,11 +228,13 @@ func (c *Ctx) c11DeleteExpired(b BK) {
 	// the scan visits every entry: no loop is left early, a sync.Map.Range callback always returns true
 	for _, p := range run.paths {
 		stop := false
-		for _, ev := range p.Events {
+		for i, ev := range p.Events {
 			if ev.Kind == pw.EvLoopEnd && ev.Note == "break" {
 				stop = true
 			}
-			if ev.Kind == pw.EvExit && ev.Frame != nil && ev.Frame.Parent != nil && len(ev.Results) == 1 && ev.Results[0] != nil && ev.Results[0].Type != nil {
+			// the callback's own return is the exit event right before the end of the Range iteration (helpers inlined into the
+			// callback that return a bool exit earlier)
+			if ev.Kind == pw.EvExit && i+1 < len(p.Events) && p.Events[i+1].Kind == pw.EvLoopEnd && ev.Frame != nil && ev.Frame.Parent != nil && len(ev.Results) == 1 && ev.Results[0] != nil && ev.Results[0].Type != nil {
 				if bt, ok := ev.Results[0].Type.Underlying().(*types.Basic); ok && bt.Info()&types.IsBoolean != 0 && !b.Sharded {
 					if t, known := p.Truth(ev.Results[0]); !known || !t {
 						stop = true
